@@ -507,6 +507,24 @@ class Interp:
             if signed:
                 ov = z3.Or(ov, z3.Not(z3.BVMulNoUnderflow(a, b)))
             return Agg('()', [a * b, ov])
+        if op in ('Div', 'Rem'):
+            if not sym:
+                if b == 0:
+                    raise Panic('attempt to divide by zero')
+                q = abs(a) // abs(b) * (1 if (a >= 0) == (b >= 0) else -1)
+                return q if op == 'Div' else a - q * b
+            if signed:
+                return a / b if op == 'Div' else z3.SRem(a, b)
+            return z3.UDiv(a, b) if op == 'Div' else z3.URem(a, b)
+        if op in ('Shl', 'Shr', 'ShlUnchecked', 'ShrUnchecked'):
+            if not sym:
+                r = (a << b) if op.startswith('Shl') else (a >> b)
+                return wrap(r, w or 64, signed)
+            if is_sym(b) and is_sym(a) and b.size() != a.size():
+                b = z3.ZeroExt(a.size() - b.size(), b) if b.size() < a.size() else z3.Extract(a.size() - 1, 0, b)
+            if op.startswith('Shl'):
+                return a << b
+            return (a >> b) if signed else z3.LShR(a, b)
         raise Unsupported('binop ' + op)
 
 
